@@ -221,7 +221,13 @@ class Connection(ExportImport):
         obj._p_jar = self
         if self._added_during_commit is not None:
             self._added_during_commit.append(obj)
-        self._register(obj)
+        try:
+            self._register(obj)
+        except BaseException:
+            # e.g. the transaction cannot be joined: not added then
+            del obj._p_jar
+            del obj._p_oid
+            raise
         # Add to _added after calling register(), so that _added
         # can be used as a test for whether the object has been
         # registered with the transaction.
